@@ -71,13 +71,35 @@ func onlyComparedOrLogged(v ssa.Value, depth int) bool {
 
 // subGuarded: a - b is dominated by a comparison establishing b <= a on the same values.
 func subGuarded(bo *ssa.BinOp) bool {
-	for _, f := range core.FactsAt(bo.Block()) {
+	if leqByFacts(core.FactsAt(bo.Block()), bo.Y, bo.X) {
+		return true
+	}
+	// clamped subtrahend: `if r > bal { r = bal }; bal -= r` — on every edge into the phi the
+	// incoming value is the minuend itself or is known not to exceed it
+	if ph, ok := bo.Y.(*ssa.Phi); ok && (ph.Block() == bo.Block() || ph.Block().Dominates(bo.Block())) {
+		for i, e := range ph.Edges {
+			if core.SameValue(e, bo.X) {
+				continue
+			}
+			if !leqByFacts(core.EdgeFacts(ph.Block().Preds[i], ph.Block()), e, bo.X) {
+				return false
+			}
+		}
+		return true
+	}
+	return false
+}
+
+// leqByFacts: the facts establish b <= a.
+func leqByFacts(facts []core.Fact, b, a ssa.Value) bool {
+	for _, f := range facts {
 		c, ok := f.Cond.(*ssa.BinOp)
 		if !ok {
 			continue
 		}
-		a, b := bo.X, bo.Y
-		sx := func(u, v ssa.Value) bool { return core.SameValue(u, v) || (describe(u) != "" && describe(u) == describe(v) && !strings.Contains(describe(u), "call:")) }
+		sx := func(u, v ssa.Value) bool {
+			return core.SameValue(u, v) || (describe(u) != "" && describe(u) == describe(v) && !strings.Contains(describe(u), "call:"))
+		}
 		// forms establishing b <= a
 		switch {
 		case sx(c.X, a) && sx(c.Y, b) && ((c.Op == token.GEQ && f.Taken) || (c.Op == token.GTR && f.Taken) || (c.Op == token.LSS && !f.Taken)):
